@@ -1468,7 +1468,7 @@ def m_closure_call(ex, c, a, m):
     return ex.call_closure(a[0], args)
 
 
-@model(r'<[A-Z]\w* as Fn(Once|Mut)?<\((.*)\)>>::call(_once|_mut)?')
+@model(r'<(?:[A-Z]\w*|impl Fn(?:Once|Mut)?\(.*?\)(?: -> .+?)?) as Fn(Once|Mut)?<\((.*)\)>>::call(_once|_mut)?')
 def m_generic_fn_call(ex, c, a, m):
     args = a[1]
     args = list(args.fields) if type(args) is Adt and args.name in ('tuple', '()') else [args]
